@@ -695,9 +695,28 @@ def r9_update(facts, rep):
                 bad.append("Err is returned on a path where the prefixes were not compared unequal")
         elif occupied:
             n_occ_ok += 1
+            # the entry that stays carries the sum of the stored power and the new one (`ft*ft` is ft^2, not ft)
+            if not any(e[0] == "remove" for e in mut):
+                from ..absint import evalterm as _ev
+                grid_ = [{"stored(names,unit).power": a_, "power": b_} for a_ in (-3, -1, 1, 2, 7) for b_ in (-2, -1, 1, 3)]
+                for c_ in r["cells"].values():
+                    if isinstance(c_, _A) and c_.path == "compound::State":
+                        try:
+                            same_ = _ev.sem_eq(c_.field(0), _T("i+", _S("stored(names,unit).power"), _S("power")), grid_)[0]
+                        except _ev.Unrecognised:
+                            same_ = False
+                        if not same_:
+                            bad.append("a unit that occurs again ends with power %r; specified stored power + new power" % (c_.field(0),))
             if cmp_ is not True:
                 bad.append("an existing entry is updated%s without its prefix having been compared equal to the new one" % (
                     " and removed" if any(e[0] == "remove" for e in mut) else ""))
+    for r in res:
+        v = r["value"]
+        if r["kind"] == "ret" and isinstance(v, _A) and v.path == "std::result::Result" and v.vi == 0 and not any(
+                isinstance(p_, _T) and p_.op == "contains" and b_ is True for p_, b_ in r["pc"]):
+            ins = [e for e in r["log"] if e[0] == "insert"]
+            if len(ins) != 1 or repr(ins[0][-1]) != "compound::State{power, prefix}":
+                bad.append("a new unit is stored as %s; specified State{power, prefix}" % ([repr(e[-1]) for e in ins],))
     rep.ob("C05-R9", "update", not bad and n_occ_ok >= 2 and n_err >= 1, "; ".join(sorted(set(bad))[:3]) if bad else
            "%d Ok path(s) on an existing entry, all behind the prefix comparison; %d Err path(s), none after a change" % (n_occ_ok, n_err), body.site())
 
@@ -866,6 +885,18 @@ def run(fx, rep, tier):
     from . import c09
     sub = type(rep)(rep.prop, rep.tier)
     c09.r4_order(facts, sub)
+    # the zero point of °C / °F belongs to the scale alone: inside a product, quotient or power the word means the interval
+    c09.r2_apply(facts, sub)
     for o in sub.obls:
         o["rule"] = "C05-R7"
         rep.obls.append(o)
+    rep.rule("C05-R10", "two unit words mean the same unit only if they are the same unit: units are told apart by their numeric "
+                        "identifier, so every unit table entry carries its own (id triangle, shared with C17-R1)")
+    from . import c17
+    sub = type(rep)(rep.prop, rep.tier)
+    c17.r1_ids(facts, sub)
+    for o in sub.obls:
+        o["rule"] = "C05-R10"
+        rep.obls.append(o)
+    for f in sub.floors:
+        rep.floors.append(("C05-R10",) + tuple(f[1:]))
